@@ -1295,3 +1295,258 @@ Proof.
   exists [TK (AddVertices 3); TK (AddFaceV [0; 1; 2]); TK (AddCell [0; 0; 0; 0] false)].
   split; [vm_compute; repeat split|]. intros [_ H]. specialize (H 0 eq_refl). vm_compute in H. discriminate.
 Qed.
+
+(* ================================================================== 10. property values across collapse_edge *)
+
+From OVM Require Import Kernel.Sizes.
+
+(* ---- (a) every property array keeps exactly one element per slot, in every deletion mode *)
+Lemma szd_swap_prop k i j s : szd s -> szd (swap_prop_elems k i j s).
+Proof.
+  intros (a&b&c&d&e&f&g&h&i0&j0&k0). unfold swap_prop_elems.
+  destruct k; repeat split; cbn; try assumption; apply psized_map_pswap; assumption.
+Qed.
+
+Lemma szd_tet_add_halfedge s a b : szd s -> szd (fst (tet_add_halfedge s a b)).
+Proof.
+  intros Z. unfold tet_add_halfedge. destruct (find_halfedge s a b); [exact Z|].
+  pose proof (szd_add_edge s a b false Z) as H. destruct (add_edge s a b false). exact H.
+Qed.
+
+Lemma szd_tet_add_halfface s hes chk : szd s -> szd (fst (tet_add_halfface s hes chk)).
+Proof.
+  intros Z. unfold tet_add_halfface, tet_add_face. destruct (find_halfface_hes s _ _); [exact Z|].
+  destruct (negb (length hes =? 3)); [exact Z|].
+  pose proof (szd_add_face s hes chk Z) as H. destruct (add_face s hes chk). exact H.
+Qed.
+
+Lemma szd_tet_add_cell s hfs chk : szd s -> szd (fst (tet_add_cell s hfs chk)).
+Proof.
+  intros Z. unfold tet_add_cell. destruct (negb _); [exact Z|]. destruct (negb _); [exact Z|]. destruct (_ && _); [exact Z|].
+  apply szd_add_cell. exact Z.
+Qed.
+
+Lemma nv_tet_add_halfedge s a b : nv (fst (tet_add_halfedge s a b)) = nv s.
+Proof.
+  unfold tet_add_halfedge, add_edge, append_edge. destruct (find_halfedge s a b); [reflexivity|]. cbv zeta.
+  destruct (find_dup_edge s a b); [reflexivity|]. cbn [fst].
+  repeat match goal with |- context [if ?c then _ else _] => destruct c end; reflexivity.
+Qed.
+
+Lemma nv_tet_add_halfface s hes chk : nv (fst (tet_add_halfface s hes chk)) = nv s.
+Proof.
+  unfold tet_add_halfface, tet_add_face, add_face, append_face. destruct (find_halfface_hes s _ _); [reflexivity|].
+  destruct (negb (length hes =? 3)); [reflexivity|]. cbv zeta. destruct (chk && negb (loop_ok s hes)); [reflexivity|]. cbn [fst option_map].
+  repeat match goal with |- context [if ?c then _ else _] => destruct c end; reflexivity.
+Qed.
+
+Definition szn (n : nat) (s : mesh) : Prop := szd s /\ nv s = n.
+
+Lemma szn_collapse_he n a b acc he : szn n (fst acc) -> szn n (fst (collapse_he a b acc he)).
+Proof.
+  destruct acc as [s nhes]. intros [Z N]. unfold collapse_he. cbv zeta.
+  match goal with |- context [tet_add_halfedge s ?x ?y] =>
+    pose proof (szd_tet_add_halfedge s x y Z) as H; pose proof (nv_tet_add_halfedge s x y) as Hn; destruct (tet_add_halfedge s x y) as [s1 h'] end.
+  cbn [fst] in *. split; [apply szd_swap_prop; exact H | cbn; congruence].
+Qed.
+
+Lemma szn_fold_collapse_he n a b l : forall acc, szn n (fst acc) -> szn n (fst (fold_left (collapse_he a b) l acc)).
+Proof. induction l as [|x l IH]; intros acc H; [exact H|]. simpl. apply IH. apply szn_collapse_he. exact H. Qed.
+
+Lemma szn_collapse_hf n a b acc hf r : (forall p, acc = Some p -> szn n (fst p)) -> collapse_hf a b acc hf = Some r -> szn n (fst r).
+Proof.
+  intros H. unfold collapse_hf, bind. destruct acc as [[s nhfs]|]; [|discriminate]. specialize (H _ eq_refl). cbn [fst] in H.
+  destruct (rd (halfface s hf) 0) as [h0|]; [|discriminate]. destruct (rd (halfface s hf) 1) as [h1|]; [|discriminate].
+  destruct (rd (halfface s hf) 2) as [h2|]; [|discriminate].
+  pose proof (szn_fold_collapse_he n a b [h0; h1; h2] (s, []) H) as [Z1 N1].
+  destruct (fold_left (collapse_he a b) [h0; h1; h2] (s, [])) as [s1 nhes]. cbn [fst] in *.
+  pose proof (szd_tet_add_halfface s1 nhes false Z1) as H2. pose proof (nv_tet_add_halfface s1 nhes false) as N2.
+  destruct (tet_add_halfface s1 nhes false) as [s2 [hfh|]]; [|discriminate].
+  intros E. inversion E. cbn [fst] in *. split; [apply szd_swap_prop; exact H2 | cbn; congruence].
+Qed.
+
+Lemma szn_fold_collapse_hf n a b l : forall acc r, (forall p, acc = Some p -> szn n (fst p)) ->
+  fold_left (collapse_hf a b) l acc = Some r -> szn n (fst r).
+Proof.
+  induction l as [|x l IH]; intros acc r H E; [simpl in E; apply H; exact E|].
+  simpl in E. eapply IH; [| exact E]. intros p Hp. eapply szn_collapse_hf; eassumption.
+Qed.
+
+Lemma nv_delete_cell c s : nv (delete_cell c s) = nv s.
+Proof. apply nv_delete_cell_core. Qed.
+
+Lemma szn_collapse_cell n a b coll acc ch r : (forall p, acc = Some p -> szn n (fst p)) ->
+  collapse_cell a b coll acc ch = Some r -> szn n (fst r).
+Proof.
+  intros H. unfold collapse_cell, bind. destruct acc as [[s news]|]; [|discriminate]. specialize (H _ eq_refl). cbn [fst] in H.
+  destruct (memb ch coll); [intros E; inversion E; exact H|].
+  destruct (rd (cells s) ch) as [hfhs|]; [|discriminate].
+  destruct (rd hfhs 0) as [h0|]; [|discriminate]. destruct (rd hfhs 1) as [h1|]; [|discriminate].
+  destruct (rd hfhs 2) as [h2|]; [|discriminate]. destruct (rd hfhs 3) as [h3|]; [|discriminate].
+  destruct (fold_left (collapse_hf a b) [h0; h1; h2; h3] (Some (s, []))) as [[s1 nhfs]|] eqn:E1; [|discriminate].
+  intros E. inversion E. cbn [fst].
+  assert (Z1 : szn n s1) by (refine (szn_fold_collapse_hf n a b _ _ (s1, nhfs) _ E1); intros p Hp; inversion Hp; exact H).
+  destruct Z1 as [Z1 N1]. split; [apply szd_delete_cell; exact Z1 | rewrite nv_delete_cell; exact N1].
+Qed.
+
+Lemma szn_fold_collapse_cell n a b coll l : forall acc r, (forall p, acc = Some p -> szn n (fst p)) ->
+  fold_left (collapse_cell a b coll) l acc = Some r -> szn n (fst r).
+Proof.
+  induction l as [|x l IH]; intros acc r H E; [simpl in E; apply H; exact E|].
+  simpl in E. eapply IH; [| exact E]. intros p Hp. eapply szn_collapse_cell; eassumption.
+Qed.
+
+Lemma szd_fold_readd l : forall acc r, (forall s, acc = Some s -> szd s) -> fold_left collapse_readd l acc = Some r -> szd r.
+Proof.
+  induction l as [|n l IH]; intros acc r H E; [simpl in E; apply H; exact E|].
+  simpl in E. eapply IH; [| exact E]. intros s1 Hs. unfold collapse_readd, bind in Hs. destruct acc as [s|]; [|discriminate].
+  pose proof (szd_tet_add_cell s (snd n) false (H s eq_refl)) as H2. destruct (tet_add_cell s (snd n) false) as [s2 [c|]]; [|discriminate].
+  inversion Hs. apply szd_swap_prop. exact H2.
+Qed.
+
+Lemma szd_enable_deferred b s : szd s -> szd (enable_deferred b s).
+Proof.
+  intros Z. unfold enable_deferred. destruct (deferred s && negb b); apply szd_set_flags; [apply szd_collect_garbage|]; exact Z.
+Qed.
+
+Lemma nv_enable_deferred_true s : nv (enable_deferred true s) = nv s.
+Proof. unfold enable_deferred. rewrite andb_false_r. reflexivity. Qed.
+
+(* whatever collapse_edge does to the values, in every deletion mode it leaves every flag array and every property
+   array with exactly one element per entity slot *)
+Theorem collapse_edge_sizes s he s' r : szd s -> he_from s he < nv s -> collapse_edge s he = Some (s', r) -> szd s'.
+Proof.
+  intros Z Ha. unfold collapse_edge. cbv zeta. unfold bind.
+  set (t := if negb (deferred s) then enable_deferred true s else s).
+  assert (Zt : szn (nv s) t).
+  { unfold t. destruct (negb (deferred s)); [split; [apply szd_enable_deferred; exact Z | apply nv_enable_deferred_true] | split; [exact Z | reflexivity]]. }
+  assert (At : he_from t he = he_from s he).
+  { unfold t. destruct (negb (deferred s)); [|reflexivity]. unfold enable_deferred. rewrite andb_false_r. reflexivity. }
+  destruct (fold_left (collapse_cell (he_from t he) (he_to t he) (collapsing_cells t he)) (vertex_cells t (he_from t he)) (Some (t, [])))
+    as [[s1 news]|] eqn:E1; [|discriminate].
+  assert (Z1 : szn (nv s) s1) by (refine (szn_fold_collapse_cell _ _ _ _ _ _ (s1, news) _ E1); intros p Hp; inversion Hp; exact Zt).
+  destruct (fold_left collapse_readd news (Some (delete_vertex (he_from t he) s1))) as [s3|] eqn:E3; [|discriminate].
+  assert (Z3 : szd s3).
+  { refine (szd_fold_readd _ _ _ _ E3). intros p Hp. inversion Hp. apply szd_delete_vertex; [exact (proj1 Z1)|].
+    rewrite (proj2 Z1), At. exact Ha. }
+  intros E. inversion E. apply szd_enable_deferred. exact Z3.
+Qed.
+
+(* ---- (b) in deferred mode the vertex and mesh property arrays are not touched at all *)
+Definition same_pvm (s t : mesh) : Prop := pv t = pv s /\ pm t = pm s.
+
+Lemma pvm_tet_add_halfedge s a b : same_pvm s (fst (tet_add_halfedge s a b)).
+Proof.
+  unfold tet_add_halfedge, add_edge, append_edge, same_pvm. destruct (find_halfedge s a b); [split; reflexivity|]. cbv zeta.
+  destruct (find_dup_edge s a b); [split; reflexivity|]. cbn [fst].
+  repeat match goal with |- context [if ?c then _ else _] => destruct c end; split; reflexivity.
+Qed.
+Lemma pvm_tet_add_halfface s hes chk : same_pvm s (fst (tet_add_halfface s hes chk)).
+Proof.
+  unfold tet_add_halfface, tet_add_face, add_face, append_face, same_pvm. destruct (find_halfface_hes s _ _); [split; reflexivity|].
+  destruct (negb (length hes =? 3)); [split; reflexivity|]. cbv zeta. destruct (chk && negb (loop_ok s hes)); [split; reflexivity|]. cbn [fst option_map].
+  repeat match goal with |- context [if ?c then _ else _] => destruct c end; split; reflexivity.
+Qed.
+Lemma pv_reorder_edges es : forall s, pv (reorder_edges es s) = pv s /\ pm (reorder_edges es s) = pm s.
+Proof.
+  unfold reorder_edges. induction es as [|e es IH]; intros s; [split; reflexivity|]. simpl. destruct (IH (reorder_incident_halffaces e s)) as [a b].
+  rewrite a, b. unfold reorder_incident_halffaces. destruct (reorder_list s e); split; reflexivity.
+Qed.
+Lemma pvm_tet_add_cell s hfs chk : same_pvm s (fst (tet_add_cell s hfs chk)).
+Proof.
+  unfold tet_add_cell, same_pvm. destruct (negb _); [split; reflexivity|]. destruct (negb _); [split; reflexivity|]. destruct (_ && _); [split; reflexivity|].
+  unfold add_cell, append_cell. cbv zeta. destruct (chk && negb (cell_check s hfs)); [split; reflexivity|].
+  match goal with |- context [if fbu ?x then _ else _] => destruct (fbu x) end; cbn [fst]; [|split; reflexivity].
+  match goal with |- context [if ebu ?x then reorder_edges ?es ?x else ?x] => destruct (ebu x); [destruct (pv_reorder_edges es x) as [a b]; rewrite a, b|] end; split; reflexivity.
+Qed.
+Lemma pvm_dstep s t a b c d : dstep s t a b c d -> same_pvm s t.
+Proof. intros (_&_&_&_&_&_&_&_&_&_&_&_&_&P). split; [exact (P KV) | exact (P KM)]. Qed.
+Lemma pvm_trans s t u : same_pvm s t -> same_pvm t u -> same_pvm s u.
+Proof. intros [a b] [c d]. split; congruence. Qed.
+
+Lemma pvm_collapse_he a b acc he : same_pvm (fst acc) (fst (collapse_he a b acc he)).
+Proof.
+  destruct acc as [s nhes]. unfold collapse_he. cbv zeta.
+  match goal with |- context [tet_add_halfedge s ?x ?y] =>
+    pose proof (pvm_tet_add_halfedge s x y) as H; destruct (tet_add_halfedge s x y) as [s1 h'] end. exact H.
+Qed.
+Lemma pvm_fold_collapse_he a b l : forall acc, same_pvm (fst acc) (fst (fold_left (collapse_he a b) l acc)).
+Proof. induction l as [|x l IH]; intros acc; [split; reflexivity|]. simpl. eapply pvm_trans; [apply pvm_collapse_he | apply IH]. Qed.
+
+Lemma pvm_collapse_hf a b acc hf r s0 : (forall p, acc = Some p -> same_pvm s0 (fst p)) -> collapse_hf a b acc hf = Some r -> same_pvm s0 (fst r).
+Proof.
+  intros H. unfold collapse_hf, bind. destruct acc as [[s nhfs]|]; [|discriminate]. specialize (H _ eq_refl). cbn [fst] in H.
+  destruct (rd (halfface s hf) 0) as [h0|]; [|discriminate]. destruct (rd (halfface s hf) 1) as [h1|]; [|discriminate].
+  destruct (rd (halfface s hf) 2) as [h2|]; [|discriminate].
+  pose proof (pvm_fold_collapse_he a b [h0; h1; h2] (s, [])) as H1.
+  destruct (fold_left (collapse_he a b) [h0; h1; h2] (s, [])) as [s1 nhes]. cbn [fst] in H1.
+  pose proof (pvm_tet_add_halfface s1 nhes false) as H2. destruct (tet_add_halfface s1 nhes false) as [s2 [hfh|]]; [|discriminate].
+  intros E. inversion E. cbn [fst] in *. eapply pvm_trans; [exact H|]. eapply pvm_trans; [exact H1|]. exact H2.
+Qed.
+Lemma pvm_fold_collapse_hf a b l s0 : forall acc r, (forall p, acc = Some p -> same_pvm s0 (fst p)) ->
+  fold_left (collapse_hf a b) l acc = Some r -> same_pvm s0 (fst r).
+Proof.
+  induction l as [|x l IH]; intros acc r H E; [simpl in E; apply H; exact E|].
+  simpl in E. eapply IH; [| exact E]. intros p Hp. eapply pvm_collapse_hf; eassumption.
+Qed.
+
+Lemma pvm_collapse_cell a b coll acc ch r s0 : (forall p, acc = Some p -> dshape (fst p) /\ same_pvm s0 (fst p)) ->
+  collapse_cell a b coll acc ch = Some r -> same_pvm s0 (fst r).
+Proof.
+  intros H. unfold collapse_cell, bind. destruct acc as [[s news]|]; [|discriminate]. destruct (H _ eq_refl) as [Hd Hp]. cbn [fst] in *.
+  destruct (memb ch coll); [intros E; inversion E; exact Hp|].
+  destruct (rd (cells s) ch) as [hfhs|]; [|discriminate].
+  destruct (rd hfhs 0) as [h0|]; [|discriminate]. destruct (rd hfhs 1) as [h1|]; [|discriminate].
+  destruct (rd hfhs 2) as [h2|]; [|discriminate]. destruct (rd hfhs 3) as [h3|]; [|discriminate].
+  destruct (fold_left (collapse_hf a b) [h0; h1; h2; h3] (Some (s, []))) as [[s1 nhfs]|] eqn:E1; [|discriminate].
+  intros E. inversion E. cbn [fst].
+  assert (P1 : same_pvm s0 s1) by (refine (pvm_fold_collapse_hf a b _ s0 _ (s1, nhfs) _ E1); intros p Hq; inversion Hq; exact Hp).
+  assert (D1 : dshape s1) by (refine (dshape_fold_collapse_hf a b _ _ (s1, nhfs) _ E1); intros p Hq; inversion Hq; exact Hd).
+  eapply pvm_trans; [exact P1 | exact (pvm_dstep _ _ _ _ _ _ (delete_cell_deferred ch s1 (proj2 D1)))].
+Qed.
+Lemma pvm_fold_collapse_cell a b coll l s0 : forall acc r, (forall p, acc = Some p -> dshape (fst p) /\ same_pvm s0 (fst p)) ->
+  fold_left (collapse_cell a b coll) l acc = Some r -> same_pvm s0 (fst r).
+Proof.
+  induction l as [|x l IH]; intros acc r H E; [simpl in E; exact (proj2 (H _ E))|].
+  simpl in E. eapply IH; [| exact E]. intros p Hp. split.
+  - eapply dshape_collapse_cell; [| exact Hp]. intros q Hq. exact (proj1 (H q Hq)).
+  - eapply pvm_collapse_cell; eassumption.
+Qed.
+Lemma pvm_fold_readd l s0 : forall acc r, (forall s, acc = Some s -> same_pvm s0 s) -> fold_left collapse_readd l acc = Some r -> same_pvm s0 r.
+Proof.
+  induction l as [|n l IH]; intros acc r H E; [simpl in E; apply H; exact E|].
+  simpl in E. eapply IH; [| exact E]. intros s1 Hs. unfold collapse_readd, bind in Hs. destruct acc as [s|]; [|discriminate].
+  pose proof (pvm_tet_add_cell s (snd n) false) as H2. destruct (tet_add_cell s (snd n) false) as [s2 [c|]]; [|discriminate].
+  inversion Hs. eapply pvm_trans; [exact (H s eq_refl) | exact H2].
+Qed.
+
+Theorem collapse_edge_vertex_props_deferred s he s' r : dshape s -> collapse_edge s he = Some (s', r) -> pv s' = pv s /\ pm s' = pm s.
+Proof.
+  intros [K D]. unfold collapse_edge. rewrite D. cbn [negb]. cbv zeta. unfold bind.
+  destruct (fold_left (collapse_cell (he_from s he) (he_to s he) (collapsing_cells s he)) (vertex_cells s (he_from s he)) (Some (s, [])))
+    as [[s1 news]|] eqn:E1; [|discriminate].
+  assert (H1 : dshape s1) by (refine (dshape_fold_collapse_cell _ _ _ _ _ _ _ E1); intros p Hp; inversion Hp; split; assumption).
+  assert (P1 : same_pvm s s1).
+  { refine (pvm_fold_collapse_cell _ _ _ _ s _ (s1, news) _ E1). intros p Hp. inversion Hp. split; [split; assumption | split; reflexivity]. }
+  destruct (fold_left collapse_readd news (Some (delete_vertex (he_from s he) s1))) as [s3|] eqn:E3; [|discriminate].
+  assert (P3 : same_pvm s s3).
+  { refine (pvm_fold_readd _ s _ _ _ E3). intros p Hp. inversion Hp.
+    eapply pvm_trans; [exact P1 | exact (pvm_dstep _ _ _ _ _ _ (delete_vertex_deferred (he_from s he) s1 (proj2 H1)))]. }
+  intros E. inversion E. destruct P3 as [a b]. unfold enable_deferred. rewrite andb_false_r. split; cbn; assumption.
+Qed.
+
+(* ---- (c) the full statement about halfedge values is refuted (KNOWN_FINDINGS "collapse-props-parity") *)
+Definition phe_val (s : mesh) (p h : nat) : Z := nth h (pdata (nth p (phe s) {| pdef := 0%Z; pdata := [] |})) 0%Z.
+Definition rebuilt_cells (s : mesh) (heh : nat) : list nat :=
+  filter (fun c => negb (memb c (collapsing_cells s heh))) (vertex_cells s (he_from s heh)).
+
+(* "the values of the halfedges (a,x) of the rebuilt tets are carried over to the halfedges (b,x)" *)
+Definition he_values_follow (s s' : mesh) (heh : nat) : Prop :=
+  forall c hf h p, In c (rebuilt_cells s heh) -> In hf (cell_at s c) -> In h (halfface s hf) -> p < length (phe s) ->
+    he_from s h = he_from s heh ->
+    exists h', find_halfedge s' (he_to s heh) (he_to s h) = Some h' /\ phe_val s' p h' = phe_val s p h.
+
+Definition parity_witness : list top :=
+  [TK (AddVertices 6); THalfEdge 0 1; TAddCellV [0; 3; 2; 4] true; TAddCellV [0; 4; 2; 5] true; TK (PropCreate KHE 0%Z)]
+  ++ map (fun i => TK (PropSet KHE 0 i (Z.of_nat (100 + i)))) (seq 0 20).
+
